@@ -37,6 +37,9 @@ func TestWorker(t *testing.T) {
 			if overlayHooks != nil {
 				overlayHooks()
 			}
+			if simsyncHooks != nil {
+				simsyncHooks()
+			}
 		},
 		Run: run,
 	})
@@ -704,3 +707,7 @@ func btoa(b bool) string {
 
 	return "0"
 }
+
+// simsyncHooks is set by simsync_test.go when the check is built with
+// simulated mutexes.
+var simsyncHooks func()
